@@ -188,7 +188,15 @@ def run_oracle(case):
         req = [im.mkref(r) for r in op[1]]
         try:
             eqs = im.model.get_equations_for(req, recurse=bool(op[2]), strip_units=bool(op[3]))
-        except Exception:
+        except Exception as e:
+            if op[3]:
+                # the unit-stripped variant answers every request the other variant answers
+                try:
+                    im.model.get_equations_for(req, recurse=bool(op[2]), strip_units=False)
+                    bad.append(('get_equations_for(%s, recurse=%s, strip_units=True) raises %r although the same request '
+                                'with strip_units=False is answered' % ([str(x) for x in req], bool(op[2]), e), {'op_index': j}))
+                except Exception:
+                    pass
             continue
         try:
             again = im.model.get_equations_for(req, recurse=bool(op[2]), strip_units=bool(op[3]))
@@ -220,6 +228,7 @@ def add_subset_queries(case, rng, exhaustive):
         subsets = [list(c) for k in range(1, len(refs) + 1) for c in itertools.combinations(refs, k)]
     else:
         subsets = [rng.sample(refs, rng.randint(1, min(4, len(refs)))) for _ in range(10)] + [[r] for r in refs]
+    subsets.append([])       # nothing requested: nothing returned
     for sub in subsets:
         for rec in (True, False):
             for strip in (False, True):
